@@ -185,6 +185,25 @@ def r2_accounting(prog, rep: Report, fm: Cls, mp: Func):
             and isinstance(arg.elts[1].value, ast.Subscript) and const_value(arg.elts[1].value.slice) == 1 \
             and const_value(arg.elts[1].slice) == 0 and src(arg.elts[0].value) == src(arg.elts[1].value.value)
         ok = ok and good
+    if not ok:
+        # the same question on the path summaries (module-level private helpers followed): every append that hands on something
+        # taken from a queue must append (item[0], item[1][0]) of one received item
+        from ..paths import strip_versions, subterms, summaries
+        ps_, un_ = summaries(prog, mp, None)
+        good_sites, bad_sites = set(), set()
+        for p_ in ps_:
+            for e in p_.events:
+                if e[0] == "call" and e[1] == "append" and len(e[3]) == 1:
+                    arg = strip_versions(e[3][0])
+                    gets = [t for t in subterms(arg) if t[0] == "eff" and t[1] == "get"]
+                    if not gets:
+                        continue
+                    g_ = gets[0]
+                    want = ("tuple", ("sub", g_, ("c", 0)), ("sub", ("sub", g_, ("c", 1)), ("c", 0)))
+                    (good_sites if arg == want else bad_sites).add(e[4])
+        if not un_ and good_sites and not bad_sites:
+            ok = True
+            apps = sorted(good_sites)
     rep.check("C05.R2", mp, "collect", ok, f"{len(apps)} receive sites append (act[0], act[1][0])",
               "a received result is not appended as (index, first element of the value list)",
               scenario="results are collected without their index or with the wrong component: the final sort cannot restore the order")
@@ -209,7 +228,8 @@ def r2_accounting(prog, rep: Report, fm: Cls, mp: Func):
 def r3_owed(prog, rep: Report, fm: Cls, mp: Func):
     rep.rule("C05.R3", "every blocking get is owed: it sits in a loop guarded by `finished < sent`; every non-blocking get is inside "
              "a queue.Empty handler", floor=4)
-    for f in (prog.method(fm, "__call__"), mp):
+    for f in (prog.method_view(fm, "__call__") or prog.method(fm, "__call__"), __import__("sa.inline", fromlist=["inline_view"]).inline_view(prog, None, mp)):
+        # read with private helpers inlined (sa/inline.py): a drain loop moved into a helper is still this function's get
         rep.fn(f)
         for c in calls_in(f.node):
             qc = queue_call(c)
@@ -402,7 +422,12 @@ def r7_input(prog, rep: Report, fm: Cls, mp: Func):
     rep.fn(call, mp)
     rep.check("C05.R7", call, "input", not probs, f"`{call.params[1]}` only handed to the chunking generator", "; ".join(probs),
               scenario="a generator input is measured with len() or traversed twice")
+    # only the generators that are handed the input (a nested generator that regroups *results* is not a reader of the input)
+    fed = {src(c.func).split(".")[-1] for c in calls_in(call.node)
+           if any(isinstance(a, ast.Name) and a.id == call.params[1] for a in c.args)}
     for g in chunkers:
+        if g.name not in fed:
+            continue
         if g.is_generator and _data_param(g):
             ps = param_used_only_for_iteration(g, _data_param(g), set())
             rep.check("C05.R7", g, "input", not ps, f"`{_data_param(g)}` iterated once", "; ".join(ps),
